@@ -82,33 +82,48 @@ def make_stub(torch, confidence_maps, edge_maps, *, truths, n_nodes, edge_inds, 
               sigma_cms, sigma_paf, registration="target", record=None):
     """A torch.nn.Module whose forward(images) returns the ideal bottom-up maps
     for the ground truth `truths[b]` ((n_inst, n_nodes, 2) float tensors in
-    ORIGINAL image coordinates, NaN = missing) of the b-th image of the batch."""
+    ORIGINAL image coordinates, NaN = missing) of the b-th image of the batch.
+
+    What belongs to the FRAME (truths, sigmas, registration, record) is held in the mutable dict
+    `net.frame`, so that ONE stub (inside one long-lived BottomUpInferenceModel) can be given the
+    next frame with `net.set_frame(...)`; what belongs to the MODEL (skeleton, strides) is fixed."""
 
     edge_t = torch.tensor(edge_inds, dtype=torch.int32).reshape(-1, 2)
 
     class Stub(torch.nn.Module):
+        def __init__(self):
+            super().__init__()
+            self.frame = {}
+            self.set_frame(truths=truths, sigma_cms=sigma_cms, sigma_paf=sigma_paf,
+                           registration=registration, record=record)
+
+        def set_frame(self, *, truths, sigma_cms, sigma_paf, registration="target", record=None):
+            self.frame = {"truths": truths, "sigma_cms": sigma_cms, "sigma_paf": sigma_paf,
+                          "registration": registration, "record": record}
+
         def forward(self, images):
+            fr = self.frame
             if images.dim() == 5:
                 images = images[:, 0]
             B, _, H, W = images.shape
             cms_all, pafs_all = [], []
             for b in range(B):
                 (ax, bx), (ay, by) = fit_affine(images[b])
-                gt = truths[b].to(torch.float64)
-                if registration == "content":
+                gt = fr["truths"][b].to(torch.float64)
+                if fr["registration"] == "content":
                     px = (gt[..., 0] - bx) / ax
                     py = (gt[..., 1] - by) / ay
                 else:
                     px = gt[..., 0] / ax
                     py = gt[..., 1] / ay
                 pts = torch.stack([px, py], dim=-1).to(torch.float32).unsqueeze(0)   # (1, n_inst, n_nodes, 2)
-                if record is not None:
-                    record.append({"ax": ax, "bx": bx, "ay": ay, "by": by, "H": H, "W": W,
-                                   "pts": pts[0].clone()})
+                if fr["record"] is not None:
+                    fr["record"].append({"ax": ax, "bx": bx, "ay": ay, "by": by, "H": H, "W": W,
+                                         "pts": pts[0].clone()})
                 cms = confidence_maps.generate_multiconfmaps(
-                    pts.clone(), (H, W), pts.shape[1], sigma_cms, cms_stride, False)
+                    pts.clone(), (H, W), pts.shape[1], fr["sigma_cms"], cms_stride, False)
                 pafs = edge_maps.generate_pafs(
-                    pts.clone(), (H, W), sigma_paf, paf_stride, edge_t, True)
+                    pts.clone(), (H, W), fr["sigma_paf"], paf_stride, edge_t, True)
                 cms_all.append(cms[0] if cms.dim() == 4 else cms)
                 pafs_all.append(pafs)
             return {"MultiInstanceConfmapsHead": torch.stack(cms_all, 0),
